@@ -247,7 +247,9 @@ def exec_cases(cases_path, events_path, profile="dev", mem_kb=4 * 1024 * 1024, t
             os.remove(prog)
         p = subprocess.Popen(["bash", "-c", "ulimit -v %d; ulimit -s 65536; exec %s %s %s %d" % (mem_kb, exe, cases_path, events_path, start)],
                              stdout=subprocess.DEVNULL, stderr=subprocess.PIPE, env=dict(os.environ, **(env or {})))
-        last = (None, time.time())
+        # a case hangs when the process has burnt timeout_case seconds of CPU time on it (a busy machine does not
+        # make a case hang), or made no progress for 10 x timeout_case seconds of wall-clock time (sleeping hang)
+        last = (None, time.time(), _cpu_seconds(p.pid))
         why = None
         while True:
             try:
@@ -256,8 +258,8 @@ def exec_cases(cases_path, events_path, profile="dev", mem_kb=4 * 1024 * 1024, t
             except subprocess.TimeoutExpired:
                 cur = open(prog).read() if os.path.exists(prog) else None
                 if cur != last[0]:
-                    last = (cur, time.time())
-                elif time.time() - last[1] > timeout_case:
+                    last = (cur, time.time(), _cpu_seconds(p.pid))
+                elif _cpu_seconds(p.pid) - last[2] > timeout_case or time.time() - last[1] > 10 * timeout_case:
                     why = "timeout"
                     p.kill()
                     p.wait()
@@ -292,6 +294,15 @@ def exec_cases(cases_path, events_path, profile="dev", mem_kb=4 * 1024 * 1024, t
         if max_hangs is not None and sum(1 for _, w in aborted if w == "timeout") >= max_hangs:
             break
     return aborted
+
+
+def _cpu_seconds(pid):
+    """user + system CPU time consumed so far by process pid (0 if it cannot be read)"""
+    try:
+        f = open("/proc/%d/stat" % pid).read().rsplit(")", 1)[1].split()
+        return (int(f[11]) + int(f[12])) / os.sysconf("SC_CLK_TCK")
+    except Exception:
+        return 0.0
 
 
 def _truncate_case(events_path, cid):
